@@ -99,7 +99,7 @@ func (g *c08gen) capture(kind, depth int, inBlock string, inMacro bool) []gen.No
 		}
 		return out
 	case kFilter:
-		fs := [][]string{{"b1"}, {"b2", "b1"}, {"b1", "b2", "b3"}, {"b3"}}
+		fs := [][]string{{"b1"}, {"b2", "b1"}, {"b1", "b2", "b3"}, {"b3"}, {"up"}, {"up", "b2"}}
 		return []gen.Node{&gen.NFilter{Filters: fs[r.Intn(len(fs))], Body: g.body(depth-1, inBlock, inMacro)}}
 	case kMacro:
 		if inMacro {
@@ -149,6 +149,10 @@ func (g *c08gen) macroCall(extra []gen.Expr, depth int) gen.Node {
 
 func (g *c08gen) body(depth int, inBlock string, inMacro bool) []gen.Node {
 	r := g.r
+	if depth > 0 && len(g.forced) == 0 && r.Intn(4) == 0 {
+		// a body that consists of exactly one capturing construct, nothing around it
+		return g.capture([]int{kFilter, kFilter, kSet, kMacro}[r.Intn(4)], depth, inBlock, inMacro)
+	}
 	out := g.leafNodes()
 	if depth <= 0 {
 		return out
@@ -262,7 +266,7 @@ func (p *c08) Run(i int) (res fw.Result) {
 }
 
 func (p *c08) Rule() string {
-	return "cases: enumerated - every nesting of depth <=2 (quick) / <=3 (thorough) of the five capture kinds (set..endset, filter section with 1..3 bracket filters, macro call, block(), parent()) x 3 continuations (captured value printed 1..3 times); random - nestings to depth 5 with 1..2 captures per level, captures inside loops (<=2 deep), captured values printed 0..3 times, assigned from block()/parent() and passed on as macro arguments, in extending and non-extending templates. Every text run and print carries a unique marker (T17. / P23.), so the oracle (reference model output plus the recorded filter-callback log) sees any byte that is misrouted, duplicated or lost. Non-trivial = nesting depth >= 2 or a capture inside a loop; distinct = multiset of capture paths."
+	return "cases: enumerated - every nesting of depth <=2 (quick) / <=3 (thorough) of the five capture kinds (set..endset, filter section with 1..3 bracket filters, macro call, block(), parent()) x 3 continuations (captured value printed 1..3 times); random - nestings to depth 5 with 1..2 captures per level (a quarter of the bodies consist of exactly one capturing construct with nothing around it, so sections are directly nested), captures inside loops (<=2 deep), captured values printed 0..3 times, assigned from block()/parent() and passed on as macro arguments, in extending and non-extending templates. Every text run and print carries a unique marker (T17. / P23.), so the oracle (reference model output plus the recorded filter-callback log) sees any byte that is misrouted, duplicated or lost. Non-trivial = nesting depth >= 2 or a capture inside a loop; distinct = multiset of capture paths."
 }
 
 func (p *c08) Assumptions() []string {
